@@ -37,8 +37,8 @@
     `Wire.blockWeightSpec`                                     BIP141 block weight of the parsed part
 
   Conventions: offsets are not tracked; every decoder returns the unconsumed rest and
-  `consumed = input.length - rest.length`. Go `[]byte` with cap = len is assumed (a sub-slice of a
-  larger array lets Go read past len: `b[0:4]` checks cap, not len).
+  `consumed = input.length - rest.length`. btc.NewTx clips the capacity of its argument to its length
+  (fix commit "NewTx never reads past the length of its buffer"), so list length = Go len.
 -/
 import GocoinV.Base.Bytes
 namespace GocoinV.Wire
@@ -77,6 +77,73 @@ def readN (k : Nat) (b : Bytes) : Option (Bytes × Bytes) :=
 def vlenWire (b : Bytes) : Option (Nat × Bytes) :=
   let r := vule b
   if r.2 = 0 ∨ r.2 ≠ vlenSize r.1 ∨ r.1 > b.length - r.2 then none else some (r.1, b.drop r.2)
+
+/-! #### compiled-code shortcuts (`@[csimp]`: proved equal, the compiler uses the fast form; the
+     definitions above stay the ones every theorem is about). `k ≤ b.length` walks the whole rest of the
+     input; `leLen k b` stops after `k` cells. -/
+
+def leLen : Nat → Bytes → Bool
+  | 0, _ => true
+  | _+1, [] => false
+  | k+1, _ :: t => leLen k t
+
+theorem leLen_iff (k : Nat) (b : Bytes) : leLen k b = true ↔ k ≤ b.length := by
+  induction k generalizing b with
+  | zero => simp [leLen]
+  | succ k ih =>
+    cases b with
+    | nil => simp [leLen]
+    | cons x t => simp [leLen, ih]
+
+def readNFast (k : Nat) (b : Bytes) : Option (Bytes × Bytes) :=
+  if leLen k b then some (b.take k, b.drop k) else none
+
+@[csimp] theorem readN_eq_fast : @readN = @readNFast := by
+  funext k b
+  unfold readN readNFast
+  by_cases h : k ≤ b.length
+  · simp [h, (leLen_iff k b).2 h]
+  · have : leLen k b = false := by
+      cases hh : leLen k b with
+      | false => rfl
+      | true => exact absurd ((leLen_iff k b).1 hh) h
+    simp [h, this]
+
+def vlenWireFast (b : Bytes) : Option (Nat × Bytes) :=
+  let r := vule b
+  if r.2 = 0 ∨ r.2 ≠ vlenSize r.1 then none
+  else
+    let rest := b.drop r.2
+    if leLen r.1 rest then some (r.1, rest) else none
+
+@[csimp] theorem vlenWire_eq_fast : @vlenWire = @vlenWireFast := by
+  funext b
+  unfold vlenWire vlenWireFast
+  by_cases h1 : (vule b).2 = 0 ∨ (vule b).2 ≠ vlenSize (vule b).1
+  · have : (vule b).2 = 0 ∨ (vule b).2 ≠ vlenSize (vule b).1 ∨ (vule b).1 > b.length - (vule b).2 := by
+      rcases h1 with h | h
+      · exact Or.inl h
+      · exact Or.inr (Or.inl h)
+    simp only [this, h1, ↓reduceIte]
+  · simp only [h1, ↓reduceIte]
+    have hl : (b.drop (vule b).2).length = b.length - (vule b).2 := by simp
+    by_cases h2 : (vule b).1 ≤ b.length - (vule b).2
+    · have h3 : leLen (vule b).1 (b.drop (vule b).2) = true := (leLen_iff _ _).2 (by rw [hl]; exact h2)
+      have h4 : ¬ ((vule b).2 = 0 ∨ (vule b).2 ≠ vlenSize (vule b).1 ∨ (vule b).1 > b.length - (vule b).2) := by
+        intro hc
+        rcases hc with h | h | h
+        · exact h1 (Or.inl h)
+        · exact h1 (Or.inr h)
+        · omega
+      simp only [h3, h4, ↓reduceIte]
+    · have h3 : leLen (vule b).1 (b.drop (vule b).2) = false := by
+        cases hh : leLen (vule b).1 (b.drop (vule b).2) with
+        | false => rfl
+        | true => exact absurd (by have := (leLen_iff _ _).1 hh; rw [hl] at this; exact this) h2
+      have h4 : ((vule b).2 = 0 ∨ (vule b).2 ≠ vlenSize (vule b).1 ∨ (vule b).1 > b.length - (vule b).2) :=
+        Or.inr (Or.inr (by omega))
+      simp only [h3, h4, ↓reduceIte]
+      simp
 
 /-- `btc.VLen` as the decoders used it before the fix: any of the four forms; the value is a Go
     `int`, a negative one makes the following `make` panic (= `none`). No bound. -/
